@@ -117,13 +117,14 @@ dedent_fn = z3.Function("textwrap_dedent", StrS, StrS)
 class Ctx:
     """Evaluation context: which env/heap expressions read, and whether we are in spec mode."""
 
-    def __init__(self, env, heap, spec=False, old=None, result=None, fuel=2):
+    def __init__(self, env, heap, spec=False, old=None, result=None, fuel=2, entry=None):
         self.env = env
         self.heap = heap
         self.spec = spec
         self.old = old          # Ctx of the pre-state (spec mode)
         self.result = result
         self.fuel = fuel
+        self.entry = entry      # Ctx of the state at loop entry (loop invariants: `entry.x`)
 
 
 def lkind_of(ety):
@@ -147,7 +148,7 @@ class FunctionVerifier:
         self.paths = 0
         self.assumption_notes = set()
         self.max_paths = self.opts.get("max_paths", 4000)
-        self.feas_timeout = self.opts.get("feas_timeout_ms", 3000)
+        self.feas_timeout = self.opts.get("feas_timeout_ms", 1000)
         self.label = func.key + (f"[{recv_class}]" if recv_class else "")
 
     # ------------------------------------------------------------ path exploration by decision replay
@@ -411,7 +412,10 @@ class FunctionVerifier:
             ms = self.prog.classes[v.ty[1]].enum_members.values()
             self.assume(z3.Or(*[v.t == m for m in ms]))
         if k in ("ref", "list"):
-            nullable = False
+            nullable = isinstance(v.ty, tuple) and len(v.ty) > 2
+            if nullable:
+                self.assume(z3.Or(v.t == NULL, z3.And(birth(v.t) >= 0, birth(v.t) < heap.now)))
+                return
             self.assume(z3.And(birth(v.t) >= 0, birth(v.t) < heap.now))
             self.assume(v.t != NULL)
             if k == "ref" and v.ty[1] is not None and not v.exact and v.ty[1] in self.prog.classes:
@@ -635,6 +639,8 @@ class FunctionVerifier:
             v = self.env.get(e.id)
             if v is not None and v.kind() == "exc":
                 return v.t
+            if v is not None and v.kind() == "ref" and v.ty[1] is not None:
+                return v.ty[1]          # raising an exception object held in a variable: its class
             return e.id
         raise VCError(f"raise form not supported at {self.where(st)}")
 
@@ -774,6 +780,11 @@ class FunctionVerifier:
             return val
         k = ty if isinstance(ty, str) else ty[0]
         vk = val.kind()
+        if k == "opt" and vk == "dyn" and ty[1] == "str":
+            if not spec:
+                self.oblige(z3.Or(Dyn.is_dstr(val.t), val.t == Dyn.dnone), "type", "dyn-is-str-or-None",
+                            self.where(node) if node else "")
+            return mk_opt(val.t == Dyn.dnone, Dyn.sval(val.t), "str")
         if k == "opt":
             if vk == "none":
                 return mk_opt(z3.BoolVal(True), self.default_term(ty[1]), ty[1])
@@ -781,6 +792,13 @@ class FunctionVerifier:
                 return val
             if val.ty == ty[1]:
                 return mk_opt(z3.BoolVal(False), val.t, ty[1])
+        if k == "list" and vk == "tuple" and not spec:
+            # a tuple of actuals passed where a list / *args is expected
+            ety = ty[1]
+            arr = z3.K(IntS, self.default_term(ety))
+            for i, x in enumerate(val.t):
+                arr = z3.Store(arr, i, self.coerce(x, ety, node).t)
+            return self.new_list(ety, z3.IntVal(len(val.t)), arr, "args")
         if k in ("ref", "list"):
             if vk == "none":
                 return V(ty, NULL)
@@ -816,6 +834,8 @@ class FunctionVerifier:
                 return V("dyn", Dyn.dnone)
             if vk == "int":
                 return V("dyn", Dyn.dint(val.t))
+            if vk == "opt" and val.ty[1] == "str":
+                return V("dyn", z3.If(val.aux, Dyn.dnone, Dyn.dstr(val.t)))
         if vk == "dyn":
             if k == "str":
                 if not spec:
@@ -1132,6 +1152,8 @@ class FunctionVerifier:
             raise VCError(f"{self.label}: loop {ordinal} at {self.where(st)} has no invariant in its contract")
         # --- invariant on entry
         k0 = z3.IntVal(0)
+        saved_entry = getattr(self, "_loop_entry", None)
+        self._loop_entry = (dict(self.env), self.heap.copy())
         self.check_inv(inv, k0, "init", st, mode)
         # --- havoc
         assigned = self.world.assigned_names(st)
@@ -1175,6 +1197,7 @@ class FunctionVerifier:
             except ContinueSig:
                 pass
             except BreakSig:
+                self._loop_entry = saved_entry
                 return            # leaves the loop, skips else
             self.check_inv(inv, k + 1, "preserved", st, mode)
             pe = PathEnd()
@@ -1186,6 +1209,7 @@ class FunctionVerifier:
             elif mode[0] != "ext":
                 self.assume(k == n)
             self.env["_k_final_%d" % ordinal] = mk_int(k)
+            self._loop_entry = saved_entry
             self.exec_block(st.orelse)
 
     def assume_wellformed_local(self, v):
@@ -1207,7 +1231,9 @@ class FunctionVerifier:
     def inv_ctx(self, k, mode):
         env = dict(self.env)
         env["_k"] = mk_int(k)
-        return Ctx(env, self.heap, spec=True, old=Ctx(self.pre_env, self.pre_heap, spec=True))
+        ent = getattr(self, "_loop_entry", None)
+        return Ctx(env, self.heap, spec=True, old=Ctx(self.pre_env, self.pre_heap, spec=True),
+                   entry=Ctx(ent[0], ent[1], spec=True) if ent else None)
 
     def check_inv(self, inv, k, phase, st, mode):
         ctx = self.inv_ctx(k, mode)
@@ -1305,6 +1331,9 @@ class FunctionVerifier:
             return mk_bool(n == "True")
         if n in self.prog.classes:
             return V("class", n)
+        if ctx.spec and n in self.world.consts and isinstance(self.world.consts[n], (str, int)):
+            c = self.world.consts[n]
+            return mk_str(c) if isinstance(c, str) else mk_int(c)
         g = self.world.global_value(self.func.module, n, self)
         if g is not None:
             return g
@@ -1565,6 +1594,12 @@ class FunctionVerifier:
         raise VCError(f"'in' on {container.ty} not supported at {self.where(node)}")
 
     def ev_Attribute(self, e, ctx):
+        # entry.<name>... in loop invariants: the state at loop entry
+        if ctx.spec and self._rooted_at_old(e, "entry") and "entry" not in ctx.env:
+            if ctx.entry is None:
+                raise VCError("entry used outside a loop invariant")
+            sub = Ctx(ctx.env, ctx.heap, spec=True, old=ctx.entry, result=ctx.result, fuel=ctx.fuel)
+            return self.ev_Attribute(self._retarget(e), sub)
         # old.<name>... in specs
         if ctx.spec and isinstance(e.value, ast.Name) and e.value.id == "old" and "old" not in ctx.env:
             if ctx.old is None:
@@ -1618,15 +1653,25 @@ class FunctionVerifier:
             return V("module", "exc." + e.attr)
         raise VCError(f"attribute {e.attr} on {obj.ty} not supported at {self.where(e)}")
 
-    def _rooted_at_old(self, e):
+    def _retarget(self, e):
+        """entry.x.y -> old.x.y (evaluated with old bound to the loop-entry state)"""
+        if isinstance(e, ast.Attribute):
+            if isinstance(e.value, ast.Name) and e.value.id == "entry":
+                return ast.Attribute(value=ast.Name(id="old", ctx=ast.Load()), attr=e.attr, ctx=ast.Load())
+            return ast.Attribute(value=self._retarget(e.value), attr=e.attr, ctx=ast.Load())
+        if isinstance(e, ast.Subscript):
+            return ast.Subscript(value=self._retarget(e.value), slice=e.slice, ctx=ast.Load())
+        return e
+
+    def _rooted_at_old(self, e, root="old"):
         while isinstance(e, (ast.Attribute, ast.Subscript)):
             e = e.value
-        return isinstance(e, ast.Name) and e.id == "old"
+        return isinstance(e, ast.Name) and e.id == root
 
     def _strip_old(self, e):
         """old.self.x.y  ->  self.x.y  (as a new AST)"""
         if isinstance(e, ast.Attribute):
-            if isinstance(e.value, ast.Name) and e.value.id == "old":
+            if isinstance(e.value, ast.Name) and e.value.id in ("old", "entry"):
                 return ast.Name(id=e.attr, ctx=ast.Load())
             return ast.Attribute(value=self._strip_old(e.value), attr=e.attr, ctx=ast.Load())
         if isinstance(e, ast.Subscript):
@@ -1634,6 +1679,11 @@ class FunctionVerifier:
         return e
 
     def ev_Subscript(self, e, ctx):
+        if ctx.spec and self._rooted_at_old(e, "entry") and "entry" not in ctx.env:
+            if ctx.entry is None:
+                raise VCError("entry used outside a loop invariant")
+            sub = Ctx(ctx.env, ctx.heap, spec=True, old=ctx.entry, result=ctx.result, fuel=ctx.fuel)
+            return self.ev_Subscript(self._retarget(e), sub)
         if ctx.spec and self._rooted_at_old(e) and "old" not in ctx.env:
             # the index expression is evaluated in the current state, the container in the old one
             base = self.eval(self._strip_old(e.value), ctx.old)
@@ -1767,7 +1817,11 @@ class FunctionVerifier:
                     raise RaiseSig(exc, self.where(node))
         rty = self.world.return_type(fi)
         res = NONE
-        if rty != "none":
+        if rty != "none" and c.returns is not None and not c.modifies:
+            # a pure function with a `returns` expression: its result IS that term (needed inside comprehensions,
+            # where a fresh result constant could not depend on the element)
+            res = self.coerce(self.eval(c.returns, Ctx(cenv, self.heap, spec=True)), rty, node, spec=True)
+        elif rty != "none":
             res = self.fresh(rty, "r_" + fi.name)
             if c.result_exact and res.kind() == "ref":
                 res.exact = True
@@ -1836,7 +1890,9 @@ class FunctionVerifier:
                 d = a.kw_defaults[idx]
                 bound[kw.arg] = self.world.default_value(fi, kw.arg, d, self)
         for n in list(bound):
-            if n in ptypes and bound[n].kind() not in ("tuple", "starred"):
+            if n in ptypes and bound[n].kind() not in ("starred",):
+                if bound[n].kind() == "tuple" and not (isinstance(ptypes[n], tuple) and ptypes[n][0] == "list"):
+                    continue
                 bound[n] = self.coerce(bound[n], ptypes[n], node)
         return bound
 
